@@ -96,6 +96,9 @@ impl StateMachine<'_> {
 
         if self.source == Source::DiffUnified {
             self.state = State::DiffHeader(DiffType::Unified);
+            // In plain diff output there is no "diff" line to mark the start of a file section:
+            // this line does, even if the same pair of files was diffed just before.
+            self.handled_diff_header_header_line_file_pair = None;
             self.painter
                 .set_syntax(get_filename_from_marker_line(&self.line));
         } else {
